@@ -408,8 +408,9 @@ OValues(m) ==
 
 -----------------------------------------------------------------------------
 (* control *)
-\* reference: the offset of a conditional jump is looked at only when the jump is taken
-NotTaken(m, pc, off) == IF pc + off < 1 \/ pc + off > Len(m.prog) + 1 THEN Quirk(m, "untaken-jump-out-of-range") ELSE m
+\* Reference (JumpTable.Control.cs: `if (cond) ExecuteJumpOffset(...)`): the offset operand of a conditional jump is
+\* looked at only when the jump is taken; an untaken jump with a target outside the script just continues.
+NotTaken(m, pc, off) == m
 OJmpIf(m, pc, off, want) ==
     IF SLen(m) < 1 THEN Fault(m)
     ELSE LET b == BoolOf(Peek(m, 0)) IN
@@ -623,4 +624,34 @@ RECURSIVE Run(_, _)
 Run(m, fuel) == IF m.st # "RUN" THEN m
                 ELSE IF fuel = 0 THEN Skip(m)
                 ELSE Run(Step(m), fuel - 1)
+-----------------------------------------------------------------------------
+(* TRIAGE NOTES - every disagreement between this specification and pkg/vm on the unchanged tree
+   (quick and thorough tiers, seeds 1 2 3 7 11), and what was narrowed.
+
+   Disagreements
+   1. Conditional jump NOT taken whose offset points outside the script (JMPIF/JMPIFNOT/JMPEQ.. and long forms):
+      reference: the offset is only used by ExecuteJumpOffset inside `if (condition)`, execution continues;
+      pkg/vm: getJumpOffset() runs before the condition is evaluated and faults ("invalid offset").
+      Transcription checked (JumpTable.Control.cs); resolution: the CODE deviates -> reported as a finding
+      (signature kind=semantics, op=untaken-jump-out-of-range, expected HALT, observed FAULT).
+   2. ENDFINALLY executed in a frame whose try stack is empty while an exception is pending (only reachable
+      with ill-formed code: a CALL inside a finally block to code that executes ENDFINALLY):
+      reference (as I remember EndFinally): "The corresponding TRY block cannot be found" -> FAULT;
+      pkg/vm: handleException() continues unwinding in the calling frames and an outer catch can take it.
+      Not established from this tree -> quirk "endfinally-no-try-pending-exception": drift, not a verdict.
+      Same for ENDFINALLY while the top try context is not in its finally block and an exception is
+      pending (reference pops that context first; pkg/vm lets it catch): on the template here both agree.
+   No transcription error of mine survived to the first full run apart from test-template offsets.
+
+   Narrowed (not claimed, executions end in st = "SKIP" or are not generated)
+   - taken jumps / CALL / PUSHA / TRY / ENDTRY whose target is outside instructions 1..n, including the
+     position just past the end (reference checks such offsets lazily at the transfer, pkg/vm eagerly at
+     the instruction; jump-to-end behaviour differs between reference versions);
+   - jump targets inside an instruction (byte level), truncated scripts, invalid opcodes: C12's subject;
+   - text of engine-raised catchable exceptions (opaque ByteString), cases that keep such an item are
+     generated only where it is dropped or only its type is inspected;
+   - ASSERTMSG messages that are not 7-bit (strict UTF-8 decoding not modelled);
+   - executions holding more than 1000 items, deeper than 64 frames or longer than 400 steps (the
+     2048-item / 1024-frame limits and gas are C12's); struct comparison/clone limits; PUSHDATA4 above
+     MaxItemSize; SYSCALL, CALLT, interop items (external effects). *)
 =============================================================================
